@@ -58,4 +58,31 @@ MUTANTS = [
       (BROKER, "            excess_margin = current_margin - target_margin\n",
        "            excess_margin = current_margin - target_margin\n            if 0 < excess_margin < 1e-3 * target_margin:\n                excess_margin = 0.0\n"),
       note="excess margin below 0.1% is left in the margin account"),
+    M("rebalance-at-mid", ["C03"],
+      (ALLOC, "            avg_price = broker.exchange[contract].acq_price(weight)\n", "            avg_price = broker.exchange[contract].mid_price\n")),
+    M("weights-on-post-cost-nlv", ["C03"],
+      (ALLOC, "            nr_contracts[contract] = weight * nlv / avg_price / contract.multiplier",
+       "            nr_contracts[contract] = weight * (nlv * (1 - broker.fees.proportional)) / avg_price / contract.multiplier")),
+    M("untargeted-kept", ["C03", "C11", "C12"],
+      (REBAL, "        for contract, quantity in imbalance.items():\n", "        for contract, quantity in imbalance.items():\n            if contract not in self.allocation:\n                continue\n")),
+    M("target-uses-wrong-side-for-shorts", ["C03"],
+      (ALLOC, "            avg_price = broker.exchange[contract].acq_price(weight)\n", "            avg_price = broker.exchange[contract].ask_price\n")),
+    # ------------------------------------------------------------------ C06
+    M("markup-sign", ["C06"],
+      (BROKER, "cagr = order_book.mid_price - self.fees.markup * np.sign(amount)", "cagr = order_book.mid_price + self.fees.markup * np.sign(amount)")),
+    M("year-360", ["C06"],
+      (BROKER, "SECONDS_IN_YEAR = 365 * 24 * 60 * 60", "SECONDS_IN_YEAR = 360 * 24 * 60 * 60")),
+    M("simple-interest", ["C06"],
+      (BROKER, "rate_period = (1 + cagr) ** years - 1", "rate_period = cagr * years")),
+    M("floor-removed", ["C06"],
+      (BROKER, "        if amount > 0. and accrued_interest < 0.:\n            accrued_interest = 0.\n", "")),
+    M("query-advances-clock", ["C06"],
+      (BROKER, "            self._holdings_quantity[self.base_currency] += accrued_interest\n            self._last_accrual = now\n",
+       "            self._holdings_quantity[self.base_currency] += accrued_interest\n        self._last_accrual = now\n")),
+    M("interest-on-margin", ["C06"],
+      (BROKER, "        amount = self._holdings_quantity[self.base_currency]\n", "        amount = self._holdings_quantity[self.base_currency] + sum(self._holdings_margins.values())\n")),
+    M("markup-ignored-for-loans", ["C06"],
+      (BROKER, "cagr = order_book.mid_price - self.fees.markup * np.sign(amount)", "cagr = order_book.mid_price - self.fees.markup * max(np.sign(amount), 0)")),
+    M("earlier-time-accepted", ["C06"],
+      (BROKER, "        if now < self._last_accrual:\n            raise ValueError(\"now={} < last_update={}\".format(now, self._last_accrual))\n", "        if now < self._last_accrual:\n            now = self._last_accrual\n")),
 ]
